@@ -14,7 +14,7 @@ STRATS = [
 ]
 
 INPUTS = {
-    "line": [b"a\nb\n{\n}\nc\n", b"x\nDDBEGIN\na\na\n{\n\n}\nDDEND\ny\n", b"function foo(a,b) {\n  list = a + b;\n}\nfoo(2, 3)\n",
+    "line": [b"a\nb\n{\n}\nc\n", b"{\n}\na\n", b"x\nDDBEGIN\na\na\n{\n\n}\nDDEND\ny\n", b"function foo(a,b) {\n  list = a + b;\n}\nfoo(2, 3)\n",
              b"function Foo() {\n  this.list = [];\n}\nFoo.prototype.push = function(a) {\n  this.list.push(a);\n}\n"],
     "char": [b"ab{}c", b"q\nDDBEGIN\nabab\r\nDDEND\n"],
     "symbol": [b"a;b{c}d;", b"f(a){\n \n};g[1]=2;\n"],
@@ -137,8 +137,7 @@ def d2_abort_everywhere(ctx, which, nontrivial, do_model=True):
     """abort (and inject an internal failure) at every test index of a fixed run"""
     rng = ctx.rng
     for name, opts in STRATS:
-        for kind in ("line", "char"):
-            data = INPUTS[kind][0]
+        for kind, data in (("line", INPUTS["line"][0]), ("char", INPUTS["char"][0]), ("line", b"{\n}\na\n")):
             seq = [rng.random() < 0.5 for _ in range(400)]
             base = d2_one(ctx, which, name, opts, kind, data, lambda k, d: "a" if k == 0 or seq[k] else "r", nontrivial, do_model,
                           label="D2-abort-base")
